@@ -987,6 +987,7 @@ def rule_submodule_once(ctx, rep: Report, rid="A4"):
     if site is None:
         raise AnalysisError("wrap_namespace: def_submodule emission not found")
     t = fo.fold(site.value)
+    tpl_ = t
     lit = " ".join(t.literal("@").split()) if t else ""
     rep.add(rid, "submodule:declared as `pybind11::module <var> = <parent>.def_submodule(\"<name>\", ...)`",
             lit.startswith('pybind11::module @ = @.def_submodule("@"') and t is not None
@@ -1019,6 +1020,28 @@ def rule_submodule_once(ctx, rep: Report, rid="A4"):
             f"the declaration is skipped unless {extra}: the variable is still named as the parent of nested namespaces' "
             "submodules and as the target of every binding of this namespace, so the generated C++ uses an undeclared "
             "identifier whenever the extra condition is false", f"{ci.mod.rel}:{site.lineno}")
+    # the first-visit test is about the identifier that gets declared: its key, and what is remembered, is the module variable
+    declared = unparse(one_value(fn, tpl_.slot("module_var").expr)) if tpl_ is not None else ""
+    keys, remembered = [], []
+    for g_, pol in guards_of(site, fn, include_exits=False):
+        if pol:
+            for c_ in ast.walk(ast.parse(g_, mode="eval").body):
+                if isinstance(c_, ast.Compare) and len(c_.ops) == 1 and isinstance(c_.ops[0], ast.NotIn) and unparse(c_.comparators[0]).startswith("self."):
+                    keys.append((c_.left, unparse(c_.comparators[0])))
+    blk = enclosing(site, ast.If)
+    for k_, table in keys:
+        for c_ in ast.walk(blk) if blk is not None else []:
+            if isinstance(c_, ast.Call) and isinstance(c_.func, ast.Attribute) and unparse(c_.func.value) == table and c_.func.attr in ("append", "add") and c_.args:
+                remembered.append(c_.args[0])
+
+    def same_as_declared(e):
+        return unparse(one_value(fn, e)) == declared or unparse(e) == unparse(tpl_.slot("module_var").expr)
+    if keys:
+        rep.add(rid, "submodule:the first-visit test and its memory are keyed by the declared module variable",
+                all(same_as_declared(k_) for k_, _ in keys) and bool(remembered) and all(same_as_declared(r_) for r_ in remembered),
+                f"tested {[unparse(k_) for k_, _ in keys]}, remembered {[unparse(r_) for r_ in remembered]}, declared `{declared}`: two different "
+                f"namespaces that agree on the tested value (`a::detail`, `b::detail`) share one entry, the second one's variable is never declared "
+                f"and everything registered on it does not compile", f"{ci.mod.rel}:{site.lineno}")
     rep.add(rid, "submodule:declared once per module variable", once,
             "the dialect allows re-opening a namespace (find_sub_namespace merges same-named namespaces); the "
             "submodule variable is declared on every visit, so `namespace n {..} namespace n {..}` declares "
